@@ -26,6 +26,7 @@ DEFAULT_PROFILE = {
     "p_after": 0.0,
     "delays": (10, 20, 30, 50, 100),
     "p_zero_delay": 0.0,
+    "p_falsy_output": 0.0,
     "p_after_two": 0.15,
     "p_named_delay": 0.2,
     "p_invoke": 0.0,
@@ -428,6 +429,9 @@ class MachineGen:
                 c["type"] = "final"
                 if rng.random() < p["p_out"]:
                     c["output"] = {"from": n.key}
+                    if p.get("p_falsy_output") and rng.random() < p["p_falsy_output"]:
+                        # a legitimate result that happens to be falsy (0, False, "", [], {})
+                        c["output"] = rng.choice((0, False, "", [], {}))
                 self.info["finals"].append(n.id)
             if n.kind == "parallel":
                 c["type"] = "parallel"
@@ -493,6 +497,8 @@ class MachineGen:
         cfg["maxIterations"] = rng.randint(lo, hi)
         if rng.random() < p["p_machine_output"]:
             cfg["output"] = {"machine": True}
+            if p.get("p_falsy_output") and rng.random() < p["p_falsy_output"]:
+                cfg["output"] = rng.choice((0, False, "", [], {}))
         logic = {"actions": self.actions, "guards": self.guards, "services": self.services, "delays": self.delays}
         return {"machine": cfg, "logic": logic, "info": self.info, "children": self.children}
 
